@@ -210,11 +210,14 @@ def cli_case(ctx, idx, text, cwd_rel, out):
     return obs
 
 
+FAST_EXAMPLES = ('S-DAC-GT.txt', 'example10_HP.txt', 'example11_AC.txt', 'example13.txt', 'example2.txt', 'example3.txt',
+                 'example4.txt', 'example5.txt')   # offline examples that take < 1 s of CPU; the thorough tier takes all of them
+
+
 def inputs(ctx):
-    ex = [(n, t) for n, t in configs.example_texts() if n in ('example1.txt', 'example2.txt', 'example10_HP.txt', 'example1_addons.txt')]
-    ex = ex[:ctx.n(2, 4)]
-    syn = [(f'synthetic{i}', runner.params_to_text(configs.synthetic(ctx.rng))) for i in range(ctx.n(2, 8))]
-    ok = [(n, t.rstrip('\n') + '\nPrint Output to Console, 0\n') for n, t in ex + syn]
+    ex = [(n, t) for n, t in configs.example_texts() if not ctx.quick or n in FAST_EXAMPLES]
+    syn = [(f'synthetic{i}', runner.params_to_text(configs.synthetic(ctx.rng))) for i in range(20)]
+    ok = [(n, t.rstrip('\n') + '\nPrint Output to Console, 0\n') for n, t in ex[:1] + syn[:2] + ex[1:] + syn[2:]]
     return ok, list(SPECIAL.items())
 
 
@@ -227,8 +230,11 @@ def part_cli(ctx):
         ref = direct[k]
         code = 0 if ref['ok'] else (2 if ref['error'] == 'SystemExit(None)' else 1)
         outs = [('d1', o) for o in OUTS['d1']] + [('d1/sub', o) for o in OUTS['d1/sub']]
-        if ctx.quick:
-            outs = ([('d1', o) for o in OUTS['d1'][:9]] + [('d1/sub', o) for o in OUTS['d1/sub'][:2]]) if k == 0 else rnd.sample(outs, 1)
+        if ctx.quick:    # one full path matrix, then one shape for 11 further inputs; every input goes through client and MC below
+            outs = ([('d1', o) for o in OUTS['d1'][:9]] + [('d1/sub', o) for o in OUTS['d1/sub'][:2]]) if k == 0 else \
+                (rnd.sample(outs, 1) if k < 12 else [])
+        elif k >= 6:
+            outs = rnd.sample(outs, 3)
         for cwd_rel, o in outs:
             plan.append((name, text, code, ref, cwd_rel, o))
     j = len(ok_inputs)
@@ -315,8 +321,29 @@ def mc_value(lines, out):
     return m[0].split(':')[1].strip().split(' ')[0].strip() if len(m) == 1 else None
 
 
+DEGENERATE = ('Gradient 1', 'Injection Temperature', 'Production Flow Rate per Well', 'Utilization Factor', 'Reservoir Depth',
+              'Surface Temperature', 'Ambient Temperature', 'Circulation Pump Efficiency')
+
+
+def degenerate_input(text):
+    """-> [name, 'uniform', v, v] for the first float parameter of the input written as a plain number: the Monte-Carlo
+    driver then 'samples' exactly the value the file already has (np.random.uniform(v, v) == v)"""
+    vals = {}
+    for line in text.splitlines():
+        parts = [x.strip() for x in line.split(',')]
+        if len(parts) >= 2 and not line.lstrip().startswith(('#', '--', '*')):
+            vals[parts[0]] = parts[1]
+    for name in DEGENERATE:
+        try:
+            float(vals.get(name, 'x'))
+        except ValueError:
+            continue
+        return [name, 'uniform', vals[name], vals[name]]
+    return None
+
+
 def _mc_job(a):
-    text, outputs, scratch, src = a
+    text, outputs, degenerate, scratch, src = a
     from geophires_monte_carlo import MC_GeoPHIRES3 as mc
     rid = uuid.uuid4().hex[:10]
     inp, outf = Path(scratch, f'mc_in_{rid}.txt'), Path(scratch, f'mc_out_{rid}.txt')
@@ -326,7 +353,7 @@ def _mc_job(a):
     old = sys.stdout
     sys.stdout = open(os.devnull, 'w')
     try:
-        mc.work_package([[], outputs, ns, str(outf), str(scratch), sys.executable])
+        mc.work_package([[degenerate] if degenerate else [], outputs, ns, str(outf), str(scratch), sys.executable])
     finally:
         sys.stdout = old
     return outf.read_text()
@@ -343,14 +370,14 @@ def part_client(ctx, ok_inputs, direct):
     ab = SPECIAL['aborts-sys-exit'][0]
     jobs.append((ab, 'file', str(ctx.scratch), str(fw.SRC)))
     meta.append(('aborts-sys-exit', 'client-from-file', None))
-    with ProcessPoolExecutor(max_workers=8, initializer=runner._init_worker, initargs=(str(ctx.scratch),)) as ex:
+    with ProcessPoolExecutor(max_workers=16, initializer=runner._init_worker, initargs=(str(ctx.scratch),)) as ex:
         res = list(ex.map(_client_job, jobs))
         mcj = []
         for k, (name, text) in enumerate(ok_inputs):
-            if direct[k]['ok'] and direct[k]['report'] and (k < 2 or not ctx.quick):
+            if direct[k]['ok'] and direct[k]['report']:
                 lines = direct[k]['report'].splitlines(keepends=True)
                 outs = [o for o in MC_OUTPUTS if mc_value(lines, o) is not None]
-                mcj.append((k, outs, ex.submit(_mc_job, (text, outs, str(ctx.scratch), str(fw.SRC)))))
+                mcj.append((k, outs, ex.submit(_mc_job, (text, outs, degenerate_input(text), str(ctx.scratch), str(fw.SRC)))))
         mcres = [(k, outs, f.result()) for k, outs, f in mcj]
     for (name, mode, k), job, r in zip(meta, jobs, res):
         rec = {'part': 'client', 'input': name, 'mode': mode, 'text': job[0]}
